@@ -82,7 +82,17 @@ func now() int64 { return time.Now().UnixNano() }
 // VerifC13Tags: two tag maps with a single tag each whose bytes are symbolic; the solver is
 // free to choose them so that "k=v" reads the same for both (e.g. {a:"b=c"} and {"a=b":"c"}).
 // Each conversion must return its own map's tags.
-func VerifC13Tags() {
+func VerifC13Tags() { c13Tags(false) }
+
+// VerifC13TagsSameString: the same with the hash assumed collision-free on different strings, so
+// that a counterexample can only be two tag maps whose "k=v" renderings are the same string - a
+// collision that exists for the real hash too and therefore replays natively.
+func VerifC13TagsSameString() { c13Tags(true) }
+
+func c13Tags(injective bool) {
+	if injective {
+		verifrt.HashInjective()
+	}
 	r := &reporter{
 		stringInterner: cache.NewStringInterner(),
 		tagCache:       cache.NewTagCache(),
